@@ -155,7 +155,7 @@ theorem seqAfterUpdate_sclr {s s' : St} {m : UpdMsg} {b : Bool} (u : Uniq s) (e 
   · cases e
   · rename_i prop _
     dsimp only at e
-    have h1 : SClr s (setSeq s { prop with dishonor := prop.dishonor - min s.p.dishonorSU prop.dishonor }) := SClr.of_ras rfl
+    have h1 : SClr s (setSeq s { prop with dishonor := prop.dishonor - min s.sqp.dishonorSU prop.dishonor }) := SClr.of_ras rfl
     split at e
     · exact h1.trans (onProposerLastBlock_sclr (u.of_setSeq _) e)
     · injection e with e; subst e; exact h1
@@ -411,6 +411,13 @@ theorem apply_sclr {s s' : St} {o : Op} (h : Roles s) (e : apply s o = .ok s') (
   | update m => exact updateState_sclr h e
   | fraud au ra hh rev p rw => exact fraud_sclr h.core.uniq e
   | obsolete au vs => exact markObsolete_sclr h e
+  | punish au a' rw => exact (punish_frame h.core.uniq (punishProposal_ok e).2).sclr
+  | transferOwner sg ra' no =>
+    obtain ⟨r1, hg1, _, _, _, rfl⟩ := transferOwner_ok e
+    exact sclr_setRa (r0 := r1) hg1 (by rfl) (Or.inl (by rfl))
+  | setSeqParams au sp =>
+    obtain ⟨_, hnp, _, rfl⟩ := setSeqParams_ok e
+    exact SClr.of_ras rfl
   | begin_ dt => exact absurd rfl (hb dt)
   | end_ f => simp only [apply] at e; injection e with e; subst e; exact (endBlock_frame h.core.uniq).sclr
 
